@@ -92,7 +92,7 @@ def c02_stages(tier):
     st = [AT('compose-q', 'MC_AffTree_compose_q.cfg'), AT('compose-dim', 'MC_AffTree_compose_dim.cfg'),
           AT('compose-k4', 'MC_AffTree_compose_k4.cfg'), AT('compose-g2', 'MC_AffTree_compose_g2.cfg'),
           # terminals with a constant component that lies exactly on a threshold of the right operand (constant pulled-back predicates)
-          AT('compose-z', 'MC_AffTree_compose_z.cfg'), AT('compose-d3', 'MC_AffTree_compose_d3.cfg'), DR('compose')]
+          AT('compose-z', 'MC_AffTree_compose_z.cfg'), AT('compose-zd', 'MC_AffTree_compose_zd.cfg'), AT('compose-d3', 'MC_AffTree_compose_d3.cfg'), DR('compose')]
     if tier == 'thorough':
         st += [AT('compose-t', 'MC_AffTree_compose_t.cfg'), AT('compose-dimt', 'MC_AffTree_compose_dimt.cfg'),
                AT('compose-k4t', 'MC_AffTree_compose_k4t.cfg')]
@@ -271,7 +271,8 @@ def deep_random(kind):
         for _ in range(n):
             if kind == 'reduce':
                 # two terminal functions only, no missing children: merges cascade over several levels
-                t = _rand_tree2(rnd, 4, D_TERM22[:2], pmiss=0.0 if rnd.random() < 0.7 else 0.15, pleaf=0.2)
+                pair = rnd.choice([D_TERM22[:2], [D_TERM22[0], _aff([[0, 1], [1, 0]], [0, 0])], [_aff([[0, 0], [0, 0]], [1, 0]), _aff([[0, 0], [0, 0]], [0, 1])]])
+                t = _rand_tree2(rnd, 4, pair, pmiss=0.0 if rnd.random() < 0.7 else 0.15, pleaf=0.2)
                 out.append({'fam': 'afftree', 'k': 2, 'q': 1, 'mode': 'reduce', 'lhs': _script_of(t), 'rhs': [], 'op': 'reduce', 'aff': NOAFF})
             elif kind == 'compose':
                 f = _rand_tree2(rnd, 3, D_TERM22)
@@ -378,7 +379,8 @@ def history_stages(tier):
 
 
 def c04_stages(tier):
-    return history_stages(tier) + prune_stages(tier)[:1] + [AT('compose-g2', 'MC_AffTree_compose_g2.cfg')]
+    # compose-zd: constant terminals composed with partial, dimension-changing operands (every terminal must end up with the new output dimension)
+    return history_stages(tier) + prune_stages(tier)[:1] + [AT('compose-g2', 'MC_AffTree_compose_g2.cfg'), AT('compose-zd', 'MC_AffTree_compose_zd.cfg')]
 
 
 def c05_stages(tier):
@@ -481,7 +483,8 @@ def c07_stages(tier):
 
 
 def c08_stages(tier):
-    st = [AT('reduce-q', 'MC_AffTree_reduce_q.cfg'), AT('reduce-p', 'MC_AffTree_reduce_p.cfg'), DR('reduce'), DR('elimreduce')]
+    # reduce-x: terminals that differ although their coefficient differences cancel in sum
+    st = [AT('reduce-q', 'MC_AffTree_reduce_q.cfg'), AT('reduce-p', 'MC_AffTree_reduce_p.cfg'), AT('reduce-x', 'MC_AffTree_reduce_x.cfg'), DR('reduce'), DR('elimreduce')]
     if tier == 'thorough':
         st += [AT('reduce-t', 'MC_AffTree_reduce_t.cfg')]
     return st
